@@ -162,7 +162,21 @@ OnExit(r, ev) ==
   /\ run' = [r EXCEPT !.d.phase = "done", !.d.why = IF d.phase = "done" THEN d.why ELSE "unexpected", !.msg = << >>]
 
 IsPrefix(a, b) == Len(a) <= Len(b) /\ SubSeq(b, 1, Len(a)) = a
-FirstDiff(a, b) == CHOOSE k \in 1 .. Len(a) + 1 : (k > Len(a) \/ k > Len(b) \/ a[k] # b[k]) /\ \A j \in 1 .. k - 1 : j <= Len(b) /\ a[j] = b[j]
+\* first position at which a and b differ (Len + 1 of the shorter one if it is a prefix of the other), by bisection
+RECURSIVE FirstDiffIn(_, _, _, _)
+FirstDiffIn(a, b, lo, hi) ==
+  IF lo >= hi THEN lo
+  ELSE LET mid == (lo + hi) \div 2 IN
+       IF mid <= Len(a) /\ mid <= Len(b) /\ SubSeq(a, lo, mid) = SubSeq(b, lo, mid)
+       THEN FirstDiffIn(a, b, mid + 1, hi) ELSE FirstDiffIn(a, b, lo, mid)
+FirstDiff(a, b) == FirstDiffIn(a, b, 1, (IF Len(a) < Len(b) THEN Len(a) ELSE Len(b)) + 1)
+
+\* the chunk of the expected stream that position k of its normalised form falls into (the last one if beyond)
+RECURSIVE ChunkOf(_, _, _, _)
+ChunkOf(outs, k, lo, hi) ==
+  IF lo >= hi THEN lo
+  ELSE LET mid == (lo + hi) \div 2 IN
+       IF Len(Norm(FlatOut(SubSeq(outs, 1, mid)))) >= k THEN ChunkOf(outs, k, lo, mid) ELSE ChunkOf(outs, k, mid + 1, hi)
 
 OnStdout(r, ev) ==
   LET d == r.d
@@ -180,9 +194,7 @@ OnStdout(r, ev) ==
      /\ Check(ev.timeout \/ ev.status # 0 \/ okk, "stdout",
               LET k == FirstDiff(no, ne)
                   \* the chunk of the expected stream the first difference falls into
-                  j == CHOOSE j \in 1 .. Len(outs) :
-                         /\ Len(Norm(FlatOut(SubSeq(outs, 1, j)))) >= k \/ j = Len(outs)
-                         /\ \A i \in 1 .. j - 1 : Len(Norm(FlatOut(SubSeq(outs, 1, i)))) < k
+                  j == ChunkOf(outs, k, 1, Len(outs))
               IN [at |-> k, chunk |-> outs[j].t, got |-> SubSeq(no, k, IF Len(no) < k + 60 THEN Len(no) ELSE k + 60),
                   expected |-> SubSeq(ne, k, IF Len(ne) < k + 60 THEN Len(ne) ELSE k + 60)])
      /\ UNCHANGED run
